@@ -63,6 +63,7 @@ type VCOpts struct {
 	OnStore  func(fr *Frame, st *ssa.Store)
 	AutoContract func(fn *ssa.Function) *Contract // default contracts (e.g. cursor contract) when none is written
 	SafetyKinds map[string]bool // restrict safety kinds; nil = all
+	ProtectParams bool
 	GhostInit map[string]string // ghost scalar state vars with sort -> initial term handled by property driver
 }
 
@@ -288,6 +289,12 @@ type Frame struct {
 	nonNilParams map[*ssa.Parameter]bool
 	locals  []localCell
 	autoDrop map[string]bool
+	protected []protectedObj
+}
+
+type protectedObj struct {
+	addr string
+	typ  types.Type
 }
 
 func (fr *Frame) root() *Frame {
@@ -939,6 +946,13 @@ func (fr *Frame) snapshotLocals(st *State, skip func(a *ssa.Alloc) bool) func(st
 		fam, addr, old string
 	}
 	var snaps []snap
+	for _, po := range fr.root().protected {
+		for _, lf := range layoutOf(po.typ).leaves {
+			famLeafSort[lf.Arr] = lf.Sort
+			a := sAdd(po.addr, sInt(int64(lf.Off)))
+			snaps = append(snaps, snap{lf.Arr, a, fmt.Sprintf("(select %s %s)", fr.q.get(st, lf.Arr), a)})
+		}
+	}
 	for f := fr; f != nil; f = f.parent {
 		for _, lc := range f.locals {
 			if allocEscapes(lc.ins) || (skip != nil && skip(lc.ins)) {
